@@ -129,4 +129,83 @@ PROPS = {
         ["relays towards a target named by a peer (IndirectPing, ForwardedAck) and explicit announce(dst) are outside the guarantee",
          "change_identity only to unlisted addresses (documented use)"],
     ),
+
+    "C12": P(
+        "A probe succeeds only on genuine evidence; indirect probing is routed correctly",
+        {
+            "success only on an Ack of the current number from the probed member or a ForwardedAck from an asked, not yet counted helper": "theorem (full): succeeded_iff, ack_counts_only_from_target, ack_changes_only_the_flag, forwarded_ack_counts_only_from_asked, failed_only_without_evidence, start_resets_evidence (over the generated Probe::succeeded)",
+            "indirect requests: only without Ack, at most num_indirect_probes, distinct... active members, never the target": "theorem (full): indirect_helpers, indirect_timer_guards ('distinct' follows from one-record-per-address, C09)",
+            "Ping answered with Ack of the same number; relay preserves origin, target and number; requests naming the instance rejected": "theorem (full): ping_is_acked, ping_req_is_relayed, indirect_ping_is_answered, indirect_ack_is_forwarded, relay_for_ourselves_is_rejected",
+            "failed round: probed member becomes Suspect and exactly one suspicion timeout is scheduled": "partial: search oracle (round tracking on the real crate) and correspondence; no whole-round theorem yet",
+        },
+        RULE_HIST + "search: round-tracking oracle on real instances: evidence seen (Ack/ForwardedAck sender x probe number x timing) vs. the probe state and the outcome of the next probe timer, PingReq fan-out, the reply table and the four IndirectForOurselves rejections.",
+        ["histories stop being judged after an Encode error; a round whose probe timer call returns an error is not judged"],
+    ),
+    "C13": P(
+        "Timer epochs: recurring loops are never lost, duplicated or resurrected",
+        {
+            "stale-epoch timers (other than forget-timers) are ignored without any effect": "theorem (full, all six token-bearing kinds): stale_timer_is_noop",
+            "every Idle/Defunct/reset moves the token on; becoming active starts exactly one loop per kind in the current epoch": "theorem (full): epoch_changes_bump_token, token_moves, loops_started_on_connect, periodic_announce_rearms",
+            "set_config cannot change probe timing nor enable a periodic task": "theorem (full, over the generated guard): set_config_cannot_enable_loops",
+            "Timer ordering helper: SendIndirectProbe before ProbeRandomMember, injective on kinds": "theorem (full, over the generated Timer::seq): indirect_sorts_before_probe, seq_separates_kinds",
+            "exactly one outstanding timer per loop over whole histories; no error under deadline-order delivery": "partial: search (exactly-once timer queue simulation, in-order and random delivery, interleaved epoch-changing calls) and correspondence",
+        },
+        RULE_HIST + "search: histories in which every timer the instance schedules is delivered exactly once (in deadline order or in random order), interleaved with datagrams and API calls; outstanding timers per epoch counted after every call.",
+        ["the runtime delivers each scheduled timer exactly once; fewer than 256 epoch changes between issue and delivery", "FitsAllHeaders (an Encode error in probe_random_member loses the probe loop: the crate's own NEEDSWORK)"],
+    ),
+    "C14": P(
+        "Round-robin probing: every active member is probed within 2n-1 rounds",
+        {
+            "each round picks an active member, never a Down one; nobody only when no member is active": "theorem (full): next_returns_an_active_member, next_none_iff_no_active",
+            "scan order: first active at or after the cursor, wrap to the first active and request a reshuffle": "theorem (full): next_scans_forward, next_wraps_and_reshuffles, reshuffle_condition",
+            "every window of 2n-1 rounds pings each active member": "partial: not yet a theorem (proof sketch in DESIGN.md Appendix B); search over n <= 8 (12 thorough), 0-4 Down records, random join/removal prefixes and many seeds, on real instances",
+        },
+        "search: real instances with n active and d Down members built through random batches of joins, removals and interleaved rounds, then 5n+3 consecutive probe timers; the destinations of the Pings are checked (one per round, active, not own) and every window of 2n-1 rounds must contain every active member; distinct by history hash, non-trivial when n >= 2. " + RULE_HIST,
+        ["the set of members is stable during the window (the property's hypothesis)"],
+    ),
+    "C15": P(
+        "Dissemination accounting: updates gossiped at most max_transmissions times",
+        {
+            "one update per address, the most recently accepted one": "theorem (full): one_update_per_address, enqueue_keeps_other_addresses",
+            "each appearance costs exactly one transmission; dropped at zero; at most once per datagram": "theorem (full, any tie order): each_appearance_costs_one_transmission",
+            "never omits a pending update that still fits; precedence to more transmissions remaining": "theorem (full): nothing_that_fits_is_omitted, higher_priority_first, priority_order (over the generated Entry::cmp)",
+            "Feed/Announce/TurnUndead/Broadcast consume nothing; no-broadcast application leaves the backlog alone; only successful applications are enqueued": "theorem (full): non_piggybacking_kinds_consume_nothing, no_broadcast_leaves_backlog_untouched, only_successful_applications_are_enqueued",
+            "at most max_transmissions over the whole life of an update": "partial: follows per datagram from the lemmas above; the whole-history count is checked by search (hook snapshot of remaining transmissions) and correspondence",
+        },
+        RULE_HIST + "search: accounting oracle replaying every pure-send call against the hooked backlog (remaining transmissions): only pending updates are written, exact decrement, leave at zero, nothing that fits omitted, precedence; tight packet sizes, max_transmissions in {1,2,3,4,255}.",
+        ["BinaryHeap pops a maximal element (the tie order among equal priorities is an oracle of the model, validated per datagram)"],
+    ),
+    "C16": P(
+        "Custom broadcasts: delivered intact, only where allowed, invalidated promptly",
+        {
+            "attached only on allowed kinds, to eligible members, framed u16 length ++ data, fitting the space": "theorem (full, arbitrary handler): attachment_gate, kinds_that_may_carry_custom, tail_is_framed_items",
+            "each appearance costs one transmission; invalidated items leave at once": "theorem (full, arbitrary invalidation relation): each_item_costs_one_transmission, invalidated_items_leave, add_broadcast_stores_whole_item",
+            "receiver hands the handler exactly the items, in order, with the sender": "theorem (one loop iteration, full): receive_loop_step",
+            "broadcast(): nothing when empty; at most num_indirect_probes eligible active targets": "theorem (full): broadcast_with_empty_backlog, broadcast_targets",
+            "whole-history bound of max_transmissions per item; broadcast() stops when drained": "partial: search oracle and correspondence",
+        },
+        RULE_HIST + "search: table-driven handlers (four invalidation relations, recipient deny masks), items of 1..7 bytes, hooked backlog accounting, handler call log compared with the items of every accepted datagram.",
+        ["the handler derives the key from the item bytes alone (harness handlers do); BroadcastHandler does not panic"],
+    ),
+    "C17": P(
+        "Deterministic, and rejected input leaves no trace",
+        {
+            "each rejected class changes nothing (state, effects, oracle/RNG position)": "theorem (full): oversized_datagram, undecodable_header, own_identity_or_address_as_source, malformed_right_after_header, not_addressed_to_the_instance, undecodable_member_list, stale_epoch_timer, reuse_when_not_undead, change_to_same_identity, invalid_config, empty_or_oversized_broadcast, accept_payload_iff",
+            "inserting any number of them anywhere alters nothing of the rest": "theorem (full): insertion_is_invisible (induction over the history)",
+            "determinism": "the model's step is a function by construction; the implementation is checked by twin runs in the search",
+        },
+        RULE_HIST + "search: twin runs on the real crate: a base history, the same history with rejected inputs of all 13 classes inserted at random points (built for the state at that point), and a repeat of the base history; all output streams compared line by line.",
+        [],
+    ),
+    "C20": P(
+        "Bundled codecs round-trip exactly and fail cleanly",
+        {
+            "every header and member round-trips, consuming exactly the bytes produced, whatever follows": "theorem (full for the byte-level models of the fixed, postcard and bincode codecs over all eleven message variants and the whole u16/u8 ranges): header_roundtrip, member_roundtrip, id_roundtrip, msg_roundtrip, fixed_laws, postcard_laws, bincode_laws, codecs_roundtrip",
+            "decoding never reads past its input; truncated input is an error; over-long varints and wide markers are rejected": "theorem: unleb_suffix, empty_input_is_an_error, postcard_rejects_overlong_varint, bincode_rejects_wide_markers",
+            "the models are the crates' wire formats": "tie: codec-level correspondence (real decoder vs. Lean decoder on valid, truncated, corrupted and random bytes) plus byte-exact comparison of every datagram in the correspondence run; serde derive field order is trusted and checked this way only",
+            "encoding into a short buffer is an error, Foca's datagrams stay well-formed": "search on the real codecs (every buffer size 0..len) and C07's theorems for the send path (model of the failed-encode space accounting)",
+        },
+        "search: random headers/members over boundary values (0,1,127,128,250..252,255,256,16383,16384,65534,65535) encoded with the real codecs, then left valid / truncated at every length / corrupted / extended / replaced by random bytes; real decoder vs Lean decoder through the driver; round trip with a suffix; encode into every buffer size below the encoded length. " + RULE_HIST,
+        ["serde derive visits fields in declaration order (checked by correspondence, not proved)"],
+    ),
 }
